@@ -58,7 +58,7 @@ def outcomeJ (o : Outcome) : Json :=
   Json.mkObj [("state", stateJ o.1), ("err", match o.2 with | some e => errJ e | none => Json.null)]
 
 /-- Everything the model is silent about is rejected here, never defaulted. -/
-def checkDomain (e : Env) (fs : Files) : Except String Unit := do
+def checkEnv (e : Env) : Except String Unit := do
   for (k, v) in e.vars do
     unless asciiStr k && asciiStr v do throw s!"out of domain: non-ASCII environment value for {k}"
   unless pathClean e.home do throw "out of domain: home is not a clean path"
@@ -76,6 +76,9 @@ def checkDomain (e : Env) (fs : Files) : Except String Unit := do
     for l' in looks do
       if l.path == l'.path && l.loader != l'.loader then
         throw s!"out of domain: {l.path} is read both as yaml and as pyproject.toml"
+
+def checkDomain (e : Env) (fs : Files) : Except String Unit := do
+  checkEnv e
   unless decide (fs.map (·.1)).Nodup do throw "duplicate path in files"
   for (p, pl) in fs do
     unless payloadInDomain pl do throw s!"out of domain: payload of {p}"
@@ -98,6 +101,34 @@ def handle (op : String) (j : Json) : Except String Json := do
           Json.str (match l.loader with | .yaml => "yaml" | .pyproject => "pyproject"),
           Json.bool l.mustExist]).toArray),
       ("consulted", strsJ (consulted fs (defaults e) looks))])
+  | "session" =>
+    -- {home, platform, files, ops: [{op: "new"|"init", obj, vars}]}: a history of one process
+    let home ← (← j.getObjVal? "home").getStr?
+    let platform ← j.getObjVal? "platform"
+    let fs ← filesOf (← j.getObjVal? "files")
+    checkDomain { vars := [], home := home } fs
+    let ops ← (← (← j.getObjVal? "ops").getArr?).toList.mapM fun o => do
+      let e ← envOf (Json.mkObj [("vars", ← o.getObjVal? "vars"), ("home", Json.str home), ("platform", platform)])
+      checkEnv e
+      let obj ← (← o.getObjVal? "obj").getNat?
+      match ← (← o.getObjVal? "op").getStr? with
+      | "new" => pure (Op.construct obj e)
+      | "init" => pure (Op.init obj e)
+      | k => throw s!"unknown session op {k}"
+    let obs := runOps fs [] ops
+    for o in obs do
+      if o.state.isNone then throw s!"out of domain: init on object {o.obj} that was never constructed"
+    let looksOf : Op → List Look
+      | .construct _ _ => []
+      | .init _ e => initOrder e
+    pure (Json.arr ((obs.zip ops).map fun (o, op) => Json.mkObj [
+      ("obj", Json.num o.obj),
+      ("state", match o.state with | some st => stateJ st | none => Json.null),
+      ("err", match o.err with | some err => errJ err | none => Json.null),
+      ("order", Json.arr ((looksOf op).map fun l => Json.arr #[Json.str l.path,
+          Json.str (match l.loader with | .yaml => "yaml" | .pyproject => "pyproject"),
+          Json.bool l.mustExist]).toArray),
+      ("consulted", strsJ o.consulted)]).toArray)
   | "apply" =>
     let e ← envOf (← j.getObjVal? "env")
     let path ← (← j.getObjVal? "path").getStr?
